@@ -31,6 +31,7 @@ type Config struct {
 	ValidateMax int // number of completed paths for which a model is extracted
 	Deadline    time.Time
 	DumpFile    string
+	NoSummaries bool // disable pure-callee summarisation (diagnostics)
 }
 
 // PathModel is a completed path with a concrete witness, used for native trace validation.
